@@ -487,7 +487,17 @@ class Exec(object):
         if ck in ("FloatingCast",):
             return self.ev(c, st)
         if ck in ("IntegralCast",):
-            return [(s, self.coerce(v, "I") if v.sort in ("B", "R") else v) for s, v in self.ev(c, st)]
+            out_ = []
+            tq = (n.get("type", {}).get("desugaredQualType") or q or "").replace("const ", "").strip()
+            sq = ((c.get("type", {}) or {}).get("desugaredQualType") or (c.get("type", {}) or {}).get("qualType") or "").replace("const ", "").strip()
+            wrap64 = getattr(self.ctx, "model_unsigned", False) and tq in ("unsigned long", "unsigned long long", "size_t") and sq in ("long", "int", "long long", "short", "integertype")
+            for s, v in self.ev(c, st):
+                v = self.coerce(v, "I") if v.sort in ("B", "R") else v
+                if wrap64 and not tm.isnum(v):
+                    # conversion of a signed value to a 64-bit unsigned type: negative values wrap to 2^64 + v
+                    v = tm.ite(tm.lt(v, tm.num(0, "I")), v + tm.num(2 ** 64, "I"), v)
+                out_.append((s, v))
+            return out_
         if ck in ("IntegralToBoolean", "FloatingToBoolean", "PointerToBoolean"):
             return [(s, tm.to_bool(v)) for s, v in self.ev(c, st)]
         if ck in ("NullToPointer",):
